@@ -30,8 +30,13 @@ TSchema == IsEvent("Schema") /\ sl' = l
 Say(ok, how) == PrintT(<<"VERDICT", l, ok, how>>) /\ (Inventory \/ ok)
 
 Top(e) == e.val.type
+\* the server applies the (buf.validate) rules of the message: a value that breaks a required rule is
+\* not one it accepts or sends, so its JSON form is not at stake there (codecs do not look at rules)
+RuleRefuses(e) == e.server /\ ~SatisfiesRequired(schema, e.val)
 FormHow(e) ==
-  IF e.ok /\ Canon(e.json) = Enc(schema, e.val) THEN "contract"
+  IF RuleRefuses(e) THEN "not_an_accepted_value"
+  ELSE IF e.ok /\ Canon(e.json) = Enc(schema, e.val) THEN "contract"
+  ELSE IF "D_flatten_of_root_unwrap" \in Dev /\ FlattenOfRootUnwrap(schema, Top(e)) THEN "D_flatten_of_root_unwrap"
   ELSE IF "D_nested_codec_ignored" \in Dev /\ NestedAnnotated(schema, Top(e)) /\ e.ok /\ Canon(e.json) = EncPlainNested(schema, e.val)
        THEN "D_nested_codec_ignored"
   ELSE IF "D_unwrap_empty_as_null" \in Dev /\ e.ok /\ Canon(e.json) = EncVariant(schema, e.val, FALSE, TRUE) THEN "D_unwrap_empty_as_null"
@@ -47,7 +52,10 @@ FormHow(e) ==
        THEN "D_client_no_unwrap"
   ELSE "none"
 RoundHow(e) ==
-  IF e.ok /\ RoundTripOK(schema, e.val, e.back) THEN "contract"
+  IF RuleRefuses(e) THEN "not_an_accepted_value"
+  ELSE IF e.ok /\ RoundTripOK(schema, e.val, e.back) THEN "contract"
+  ELSE IF "D_flatten_of_root_unwrap" \in Dev /\ FlattenOfRootUnwrap(schema, Top(e)) THEN "D_flatten_of_root_unwrap"
+  ELSE IF "D_flatten_empty_child_presence" \in Dev /\ e.ok /\ RoundTripFlatLossOK(schema, e.val, e.back) THEN "D_flatten_empty_child_presence"
   \* encoding/json children: the contract form of such children is not what the codecs read (foreign);
   \* a codec reading its own output must still bring back the skeleton (presence, oneof member, the
   \* message's other fields)
